@@ -205,6 +205,18 @@ def gen_spec(rng, clean=False, max_nodes=5):
             a, b = t['items'][:cut], t['items'][cut:]
             t['items'] = a
             top.insert(rng.randint(0, len(top)), {'kind': t['kind'], 'items': b})
+    if clean and nn >= 2 and rng.random() < 0.45:
+        # several <library_nodes> elements: each element has its own retry loop, so a node may only instantiate nodes
+        # of its own or of an EARLIER element (see notes/C07.md); inside an element the definition order is free
+        byrank = sorted(range(nn), key=lambda i: rank[i])
+        cut = rng.randint(1, nn - 1)
+        first = [libs['nodes'][i] for i in byrank[:cut]]
+        second = [libs['nodes'][i] for i in byrank[cut:]]
+        rng.shuffle(first)
+        rng.shuffle(second)
+        k = [i for i, t in enumerate(top) if t['kind'] == 'nodes'][0]
+        top[k]['items'] = first
+        top.insert(rng.randint(k + 1, len(top)), {'kind': 'nodes', 'items': second})
     if default is not None:
         top.insert(rng.randint(0, len(top)), {'kind': 'default', 'url': default})
     return {'top': top}
@@ -419,12 +431,15 @@ def permuted(spec, perm):
     return s
 
 
-def with_node_order(spec, perm):
+def with_node_order(spec, perm, which=0):
     s = copy.deepcopy(spec)
+    k = 0
     for t in s['top']:
         if t['kind'] == 'nodes':
-            t['items'] = [t['items'][i] for i in perm]
-            break
+            if k == which:
+                t['items'] = [t['items'][i] for i in perm]
+                break
+            k += 1
     return s
 
 
